@@ -10,6 +10,7 @@ import (
 	"fmt"
 	"math/big"
 	"os"
+	"strings"
 
 	"github.com/ethereum/go-ethereum/common/math"
 	"github.com/ethereum/go-ethereum/crypto"
@@ -369,6 +370,11 @@ func main() {
 		}
 		mut("p-txhash", func(x *preconfpb.Bid) { x.TxHash = x.TxHash + "0" })
 		mut("p-txhash-case", func(x *preconfpb.Bid) { x.TxHash = "F" + x.TxHash })
+		if up := strings.ToUpper(b.TxHash); up != b.TxHash {
+			mut("p-txhash-case-only", func(x *preconfpb.Bid) { x.TxHash = strings.ToUpper(x.TxHash) })
+		} else if lo := strings.ToLower(b.TxHash); lo != b.TxHash {
+			mut("p-txhash-case-only", func(x *preconfpb.Bid) { x.TxHash = strings.ToLower(x.TxHash) })
+		}
 		mut("p-amount", func(x *preconfpb.Bid) {
 			v, _ := new(big.Int).SetString(x.BidAmount, 10)
 			x.BidAmount = v.Add(v, big.NewInt(1)).String()
@@ -407,9 +413,9 @@ func main() {
 			sv := new(big.Int).SetBytes(x.Signature[32:64])
 			sv.Sub(secpN, sv)
 			copy(x.Signature[32:64], math.U256Bytes(sv))
-			x.Signature[64] ^= 1 // 27<->28
+			x.Signature[64] = 55 - x.Signature[64] // 27<->28
 		})
-		mut("p-v-flip", func(x *preconfpb.Bid) { x.Signature[64] ^= 1 })
+		mut("p-v-flip", func(x *preconfpb.Bid) { x.Signature[64] = 55 - x.Signature[64] })
 		mut("p-multi", func(x *preconfpb.Bid) { x.BlockNumber += 7; x.TxHash += "ab"; x.DecayEndTimestamp += 3 })
 		// value-preserving spellings (not perturbations of a value): only model agreement
 		np := func(tag string, f func(x *preconfpb.Bid)) {
@@ -461,7 +467,7 @@ func main() {
 			sv := new(big.Int).SetBytes(x.Signature[32:64])
 			sv.Sub(secpN, sv)
 			copy(x.Signature[32:64], math.U256Bytes(sv))
-			x.Signature[64] ^= 1
+			x.Signature[64] = 55 - x.Signature[64]
 		})
 		cmut("c-p-other-valid-bid", true, func(x *preconfpb.PreConfirmation) {
 			// a different *valid* bid embedded under the old commitment digest/signature
